@@ -91,7 +91,7 @@ def tree_key():
 STATE_RE = re.compile(r"(\d+) states generated, (\d+) distinct states found")
 
 
-def run_tlc(tag, module, cfg, workers=1, env=None, accel=False, timeout=3600, mem="4g", queue="StateDeque", extra=None):
+def run_tlc(tag, module, cfg, workers=1, env=None, accel=False, timeout=3600, mem="4g", queue="StateDeque", extra=None, keep=()):
     meta = os.path.join(WORK, "tlc-%s-%d" % (tag, os.getpid()))
     os.makedirs(meta, exist_ok=True)
     e = dict(os.environ)
@@ -126,6 +126,8 @@ def run_tlc(tag, module, cfg, workers=1, env=None, accel=False, timeout=3600, me
                 res["notes"].append(v)
             elif v.get("k") == "STAT":
                 res.setdefault("stats", []).append(v)
+            elif v.get("k") in keep:
+                res.setdefault("kept", []).append(v)
         m = STATE_RE.search(line)
         if m:
             res["states"], res["distinct"] = int(m.group(1)), int(m.group(2))
@@ -181,7 +183,8 @@ class Job:
     """One unit of work whose result is cached per (tree, seed, tier)."""
 
     def __init__(self, name, kind, module, cfg=None, gen=None, accel=False, workers=1, serves=(), split=1, mem="4g", queue="StateDeque", timeout=3600,
-                 expect_violated=()):
+                 expect_violated=(), genspec=None):
+        self.genspec = genspec
         self.name, self.kind, self.module, self.cfg, self.gen = name, kind, module, cfg, gen
         self.accel, self.workers, self.serves, self.split, self.mem, self.queue, self.timeout = accel, workers, serves, split, mem, queue, timeout
         self.expect_violated = expect_violated
@@ -200,10 +203,20 @@ class Job:
         else:
             tr = os.path.join(cache_dir, self.name + ".ndjson")
             args = [re.sub(r"\{seed(\+(\d+))?\}", lambda m: str(seed + int(m.group(2) or 0)), a) for a in self.gen]
+            gen_stats = None
+            if self.genspec:
+                # spec -> impl: TLC enumerates behaviours / inputs, the harness replays them on the real code
+                genfile = os.path.join(cache_dir, self.name + ".gen.ndjson")
+                g = run_tlc(self.name + "-gen", self.genspec[0] + ".tla", self.genspec[1], workers=1, accel=self.accel, mem=self.mem, keep=("PROG", "SCEN"))
+                with open(genfile, "w") as fh:
+                    for item in g.get("kept", []):
+                        fh.write(json.dumps(item) + "\n")
+                gen_stats = {"generated_by_tlc": len(g.get("kept", [])), "gen_module": self.genspec[0], "gen_cfg": self.genspec[1], "gen_states": g["states"]}
+                args = [a.replace("{genfile}", genfile) for a in args]
             info = gen_trace(args, tr)
             r = run_tlc(self.name, self.module + ".tla", self.cfg or (self.module + ".cfg"), workers=1, env={"TRACE": tr}, accel=self.accel, mem=self.mem,
                         timeout=self.timeout)
-            r.update(kind="trace", name=self.name, records=info.get("records", 0), info=info, trace=tr, gen_args=args)
+            r.update(kind="trace", name=self.name, records=info.get("records", 0), info=info, trace=tr, gen_args=args, gen_stats=gen_stats)
             # samples: first records + records of verdicts
             sample_lines = [1, 2, 3]
             vl = sorted({v["l"] for v in r["verdicts"]})[:40]
